@@ -34,6 +34,12 @@ VBuiltin(n) == [t |-> "builtin", n |-> n]
 VMeth(n, self) == [t |-> "method", n |-> n, self |-> self]
 VErr(msg, raised) == [t |-> "error", v |-> msg, raised |-> raised]
 VUnset == [t |-> "unset"]
+\* floats: the dyadic rationals n/8 with |n| <= FBIG (every +, -, *, / whose exact result is again such a number is
+\* exact in IEEE arithmetic too); anything else - inexact quotients, infinities, NaN, negative zero, ** - is Unknown
+VFloat(n) == [t |-> "float", n |-> n]
+FBIG == 32768
+Num(v) == v.t \in {"int", "float"}
+F8(v) == IF v.t = "int" THEN 8 * v.v ELSE v.n       \* eight times the numeric value
 
 Ok(v, s) == [k |-> "ok", v |-> v, s |-> s]
 \* kind: "type error", "index error", "key error", "slice error", "args error", "value error",
@@ -70,6 +76,11 @@ IsSub(a, b) == IF Len(a) > Len(b) THEN FALSE ELSE IsPrefixOf(a, b) \/ IsSub(a, T
 RECURSIVE Digits(_)
 Digits(n) == IF n < 10 THEN <<48 + n>> ELSE Digits(n \div 10) \o <<48 + (n % 10)>>
 IntText(n) == IF n < 0 THEN <<45>> \o Digits(-n) ELSE Digits(n)
+\* shortest decimal text of n/8 (magnitude below 10^6: no exponent form)
+FracText(r) == CASE r = 0 -> <<>> [] r = 1 -> <<46,49,50,53>> [] r = 2 -> <<46,50,53>> [] r = 3 -> <<46,51,55,53>>
+                 [] r = 4 -> <<46,53>> [] r = 5 -> <<46,54,50,53>> [] r = 6 -> <<46,55,53>> [] r = 7 -> <<46,56,55,53>>
+FloatText(n) == LET m == IF n < 0 THEN -n ELSE n IN
+                (IF n < 0 THEN <<45>> ELSE <<>>) \o Digits(m \div 8) \o FracText(m % 8)
 RECURSIVE Rev(_)
 Rev(sq) == IF Len(sq) = 0 THEN <<>> ELSE Rev(Tail(sq)) \o <<Head(sq)>>
 \* strings whose Go %q form is not simply "…": outside the modelled domain
@@ -100,6 +111,7 @@ Truthy(v, s) ==
   CASE v.t = "int" -> v.v # 0
     [] v.t = "bool" -> v.v
     [] v.t = "nil" -> FALSE
+    [] v.t = "float" -> v.n # 0
     [] v.t = "str" -> Len(v.v) > 0
     [] v.t = "list" -> Len(Items(v, s)) > 0
     [] v.t = "map" -> DOMAIN MapOf(v, s) # {}
@@ -111,7 +123,8 @@ RECURSIVE SeqEq(_,_,_)
 SeqEq(x, y, s) == IF Len(x) # Len(y) THEN FALSE ELSE IF Len(x) = 0 THEN TRUE
                   ELSE VEq(Head(x), Head(y), s) /\ SeqEq(Tail(x), Tail(y), s)
 VEq(a, b, s) ==
-  IF a.t # b.t THEN FALSE
+  IF Num(a) /\ Num(b) /\ (a.t = "float" \/ b.t = "float") THEN F8(a) = F8(b)   \* 1 == 1.0
+  ELSE IF a.t # b.t THEN FALSE
   ELSE CASE a.t \in {"int","bool","str"} -> a.v = b.v
          [] a.t = "nil" -> TRUE
          [] a.t = "list" -> SeqEq(Items(a, s), Items(b, s), s)
@@ -134,6 +147,7 @@ SeqCmp(x, y, s) == IF Len(x) = 0 THEN [ok |-> TRUE, c |-> 0] ELSE
     LET r == VCmp(Head(x), Head(y), s) IN IF ~r.ok \/ r.c # 0 THEN r ELSE SeqCmp(Tail(x), Tail(y), s)
 VCmp(a, b, s) ==
   CASE a.t = "int" /\ b.t = "int" -> [ok |-> TRUE, c |-> CmpInt(a.v, b.v)]
+    [] Num(a) /\ Num(b) -> [ok |-> TRUE, c |-> CmpInt(F8(a), F8(b))]
     [] a.t = "str" /\ b.t = "str" -> [ok |-> TRUE, c |-> IF a.v = b.v THEN 0 ELSE IF LexLess(a.v, b.v) THEN -1 ELSE 1]
     [] a.t = "bool" /\ b.t = "bool" -> [ok |-> TRUE, c |-> IF a.v = b.v THEN 0 ELSE IF a.v THEN 1 ELSE -1]
     [] a.t = "nil" /\ b.t = "nil" -> [ok |-> TRUE, c |-> 0]
@@ -144,7 +158,7 @@ VCmp(a, b, s) ==
           [ok |-> TRUE, c |-> IF a.v = b.v THEN (IF a.raised = b.raised THEN 0 ELSE IF a.raised THEN 1 ELSE -1)
                               ELSE IF LexLess(a.v, b.v) THEN -1 ELSE 1]
     [] OTHER -> [ok |-> FALSE, c |-> 0]
-Comparable(v) == v.t \in {"int", "str", "bool", "nil", "list"}
+Comparable(v) == v.t \in {"int", "float", "str", "bool", "nil", "list"}
 \* no error value inside v (to nesting depth d): comparisons that meet an error value below the top level, or an
 \* error whose message is outside the model, are left to the implementation (Unknown)
 RECURSIVE ErrFree(_,_,_)
@@ -169,6 +183,23 @@ NewList(items, s) == LET s2 == AllocH(s, [t |-> "list", items |-> items]) IN Ok(
 NewMap(m, s) == LET s2 == AllocH(s, [t |-> "map", m |-> m]) IN Ok(VMap(Len(s2.heap)), s2)
 NewSet(keys, s) == LET s2 == AllocH(s, [t |-> "set", keys |-> keys]) IN Ok(VSet(Len(s2.heap)), s2)
 
+\* arithmetic with at least one float operand (the other one may be an int)
+FloatOp(op, a, b, s) ==
+  IF (a.t = "int" /\ Abs(a.v) > 4096) \/ (b.t = "int" /\ Abs(b.v) > 4096) THEN Unknown(s)
+  ELSE LET x == F8(a)  y == F8(b)
+           fin(n) == IF Abs(n) <= FBIG THEN Ok(VFloat(n), s) ELSE Unknown(s)
+       IN CASE op = "+" -> fin(x + y)
+            [] op = "-" -> fin(x - y)
+            [] op = "*" -> IF (x * y) % 8 # 0 THEN Unknown(s)
+                           ELSE IF x * y = 0 /\ (x < 0 \/ y < 0) THEN Unknown(s)      \* negative zero
+                           ELSE fin((x * y) \div 8)
+            [] op = "/" -> IF y = 0 THEN Unknown(s)                                   \* infinity / NaN
+                           ELSE IF (8 * Abs(x)) % Abs(y) # 0 THEN Unknown(s)          \* inexact quotient
+                           ELSE IF x = 0 /\ y < 0 THEN Unknown(s)                     \* negative zero
+                           ELSE fin(TruncDiv(8 * x, y))
+            [] op \in {"%", "&", "<<", ">>"} -> Raise("type error", s)
+            [] OTHER -> Unknown(s)
+
 BinOp(op, a, b, s) ==
   IF op = "==" THEN (IF EqKnown(a, b) THEN Ok(VBool(VEq(a, b, s)), s) ELSE Unknown(s))
   ELSE IF op = "!=" THEN (IF EqKnown(a, b) THEN Ok(VBool(~VEq(a, b, s)), s) ELSE Unknown(s))
@@ -183,6 +214,7 @@ BinOp(op, a, b, s) ==
      ELSE LET r == VCmp(a, b, s) IN
      IF ~r.ok THEN Raise("type error", s)
      ELSE Ok(VBool(CASE op = "<" -> r.c < 0 [] op = "<=" -> r.c <= 0 [] op = ">" -> r.c > 0 [] op = ">=" -> r.c >= 0), s)
+  ELSE IF Num(a) /\ Num(b) /\ (a.t = "float" \/ b.t = "float") THEN FloatOp(op, a, b, s)
   ELSE IF a.t = "int" /\ b.t = "int" THEN
      IF ~Small(a.v) \/ ~Small(b.v) THEN Unknown(s)
      ELSE CASE op = "+" -> Ok(VInt(a.v + b.v), s)
@@ -199,8 +231,8 @@ BinOp(op, a, b, s) ==
      IF op = "+" THEN Ok(VStr(a.v \o b.v), s) ELSE Raise("type error", s)
   ELSE IF a.t = "list" /\ b.t = "list" THEN
      IF op = "+" THEN NewList(Items(a, s) \o Items(b, s), s) ELSE Raise("type error", s)
-  ELSE IF a.t \in {"int", "str", "list", "bool", "nil", "map", "fn", "builtin", "method"}
-          /\ b.t \in {"int", "str", "list", "bool", "nil", "map", "fn", "builtin", "set", "error", "method"}
+  ELSE IF a.t \in {"int", "float", "str", "list", "bool", "nil", "map", "fn", "builtin", "method"}
+          /\ b.t \in {"int", "float", "str", "list", "bool", "nil", "map", "fn", "builtin", "set", "error", "method"}
           /\ ~(a.t = "str" /\ b.t = "int" /\ op = "*") /\ ~(a.t = "list" /\ b.t = "int" /\ op = "*")
        THEN Raise("type error", s)
   ELSE Unknown(s)
@@ -213,7 +245,7 @@ Contains(c, x, s) ==
     [] c.t = "str" -> Ok(VBool(x.t = "str" /\ IsSub(x.v, c.v)), s)
     [] c.t = "map" -> Ok(VBool(x.t = "str" /\ x.v \in DOMAIN MapOf(c, s)), s)
     [] c.t = "set" -> IF Hashable(x) THEN Ok(VBool(SetKey(x) \in s.heap[c.a].keys), s) ELSE Ok(VBool(FALSE), s)
-    [] c.t \in {"int", "bool", "nil", "fn", "builtin", "method", "error"} -> Raise("type error", s)
+    [] c.t \in {"int", "float", "bool", "nil", "fn", "builtin", "method", "error"} -> Raise("type error", s)
     [] OTHER -> Unknown(s)
 
 ResolveIdx(i, n) == LET j == IF i < 0 THEN i + n ELSE i IN IF j < 0 \/ j >= n THEN -1 ELSE j
@@ -227,7 +259,7 @@ GetItem(c, i, s) ==
          IF j < 0 THEN Raise("index error", s) ELSE Ok(VStr(<<c.v[j+1]>>), s)
     [] c.t = "map" -> IF i.t # "str" THEN Raise("type error", s) ELSE
          LET m == MapOf(c, s) IN IF i.v \in DOMAIN m THEN Ok(m[i.v], s) ELSE Raise("key error", s)
-    [] c.t \in {"int", "bool", "nil", "fn", "builtin", "method", "error"} -> Raise("type error", s)
+    [] c.t \in {"int", "float", "bool", "nil", "fn", "builtin", "method", "error"} -> Raise("type error", s)
     [] OTHER -> Unknown(s)
 
 \* slice: lo/hi are [has, v]
@@ -244,7 +276,7 @@ GetSlice(c, lo, hi, s) ==
           IF ~b.ok THEN Raise(b.kind, s) ELSE NewList(SubSeq(Items(c, s), b.a + 1, b.b), s)
     [] c.t = "str" -> LET b == SliceBounds(lo, hi, Len(c.v), s) IN
           IF ~b.ok THEN Raise(b.kind, s) ELSE Ok(VStr(SubSeq(c.v, b.a + 1, b.b)), s)
-    [] c.t \in {"int", "bool", "nil", "fn", "builtin", "method", "error"} -> Raise("type error", s)
+    [] c.t \in {"int", "float", "bool", "nil", "fn", "builtin", "method", "error"} -> Raise("type error", s)
     [] OTHER -> Unknown(s)
 
 SetItem(c, i, v, s) ==
@@ -254,7 +286,7 @@ SetItem(c, i, v, s) ==
          ELSE Ok(VNil, [s EXCEPT !.heap[c.a].items[j+1] = v])
     [] c.t = "map" -> IF i.t # "str" THEN Raise("type error", s) ELSE
          Ok(VNil, [s EXCEPT !.heap[c.a].m = (i.v :> v) @@ @])
-    [] c.t \in {"int", "bool", "nil", "fn", "builtin", "method", "error"} -> Raise("type error", s)
+    [] c.t \in {"int", "float", "bool", "nil", "fn", "builtin", "method", "error"} -> Raise("type error", s)
     [] OTHER -> Unknown(s)
 
 \* ================= text =================
@@ -274,6 +306,7 @@ ShowPairs(ks, m, s, d) == IF Len(ks) = 0 THEN [ok |-> TRUE, t |-> <<>>] ELSE
 Show(v, s, top, d) ==
   IF d = 0 THEN [ok |-> FALSE, t |-> <<>>] ELSE
   CASE v.t = "int" -> [ok |-> TRUE, t |-> IntText(v.v)]
+    [] v.t = "float" -> [ok |-> TRUE, t |-> FloatText(v.n)]
     [] v.t = "bool" -> [ok |-> TRUE, t |-> IF v.v THEN Cp("true") ELSE Cp("false")]
     [] v.t = "nil" -> [ok |-> TRUE, t |-> Cp("nil")]
     [] v.t = "str" -> IF top THEN [ok |-> TRUE, t |-> v.v] ELSE [ok |-> Plain(v.v), t |-> Quote(v.v)]
@@ -285,7 +318,7 @@ Show(v, s, top, d) ==
                         ELSE [ok |-> Plain(v.v), t |-> Cp("error(") \o Quote(v.v) \o <<41>>]
     [] OTHER -> [ok |-> FALSE, t |-> <<>>]
 
-TypeName(v) == CASE v.t = "int" -> Cp("int") [] v.t = "bool" -> Cp("bool") [] v.t = "nil" -> Cp("nil")
+TypeName(v) == CASE v.t = "int" -> Cp("int") [] v.t = "float" -> Cp("float") [] v.t = "bool" -> Cp("bool") [] v.t = "nil" -> Cp("nil")
    [] v.t = "str" -> Cp("string") [] v.t = "list" -> Cp("list") [] v.t = "map" -> Cp("map") [] v.t = "set" -> Cp("set")
    [] v.t = "fn" -> Cp("function") [] v.t \in {"builtin", "method"} -> Cp("builtin") [] v.t = "error" -> Cp("error")
    [] OTHER -> <<63>>
@@ -298,7 +331,7 @@ Declare(env, n, a) == [env EXCEPT ![Len(env)] = (n :> a) @@ env[Len(env)]]
 Alloc(s, v) == [s EXCEPT !.store = Append(s.store, v)]
 PushScope(env) == Append(env, <<>>)
 Builtins == {"print", "len", "keys", "type", "string", "sorted", "reversed", "int", "bool", "list",
-             "error", "try", "set"}
+             "error", "try", "set", "float"}
 
 \* ================= evaluator =================
 RECURSIVE EvalE(_,_,_)
@@ -385,14 +418,14 @@ CallBuiltin(n, args, s) ==
                            [] args[1].t = "str" -> Ok(VInt(Len(args[1].v)), s)
                            [] args[1].t = "map" -> Ok(VInt(Cardinality(DOMAIN MapOf(args[1], s))), s)
                            [] args[1].t = "set" -> Ok(VInt(Cardinality(s.heap[args[1].a].keys)), s)
-                           [] args[1].t \in {"int", "bool", "nil", "fn", "builtin", "method", "error"} -> Raise("type error", s)
+                           [] args[1].t \in {"int", "float", "bool", "nil", "fn", "builtin", "method", "error"} -> Raise("type error", s)
                            [] OTHER -> Unknown(s)
     [] n = "keys" -> IF Len(args) # 1 THEN Raise("args error", s)
                      ELSE CASE args[1].t = "map" -> LET ks == SortKeys(DOMAIN MapOf(args[1], s)) IN
                                      NewList([i \in 1..Len(ks) |-> VStr(ks[i])], s)
                             [] args[1].t = "list" -> NewList([i \in 1..Len(Items(args[1], s)) |-> VInt(i-1)], s)
                             [] args[1].t = "set" -> NewList(SetItems(args[1], s), s)
-                            [] args[1].t \in {"bool", "nil", "fn", "builtin", "method", "error"} -> Raise("type error", s)
+                            [] args[1].t \in {"float", "bool", "nil", "fn", "builtin", "method", "error"} -> Raise("type error", s)
                             [] OTHER -> Unknown(s)
     [] n = "type" -> IF Len(args) # 1 THEN Raise("args error", s) ELSE Ok(VStr(TypeName(args[1])), s)
     [] n = "string" -> IF Len(args) > 1 THEN Raise("args error", s)
@@ -403,8 +436,15 @@ CallBuiltin(n, args, s) ==
     [] n = "int" -> IF Len(args) > 1 THEN Raise("args error", s)
                     ELSE IF Len(args) = 0 THEN Ok(VInt(0), s)
                     ELSE IF args[1].t = "int" THEN Ok(args[1], s)
+                    ELSE IF args[1].t = "float" THEN Ok(VInt(TruncDiv(args[1].n, 8)), s)   \* towards zero
                     ELSE IF args[1].t \in {"bool", "nil", "list", "map", "set", "fn", "builtin", "method", "error"} THEN Raise("type error", s)
                     ELSE Unknown(s)
+    [] n = "float" -> IF Len(args) > 1 THEN Raise("args error", s)
+                      ELSE IF Len(args) = 0 THEN Ok(VFloat(0), s)
+                      ELSE IF args[1].t = "float" THEN Ok(args[1], s)
+                      ELSE IF args[1].t = "int" THEN (IF Abs(args[1].v) <= 4096 THEN Ok(VFloat(8 * args[1].v), s) ELSE Unknown(s))
+                      ELSE IF args[1].t \in {"bool", "nil", "list", "map", "set", "fn", "builtin", "method", "error"} THEN Raise("type error", s)
+                      ELSE Unknown(s)
     [] n = "list" -> IF Len(args) > 1 THEN Raise("args error", s)
                      ELSE IF Len(args) = 0 THEN NewList(<<>>, s)
                      ELSE CASE args[1].t = "list" -> NewList(Items(args[1], s), s)
@@ -412,7 +452,7 @@ CallBuiltin(n, args, s) ==
                             [] args[1].t = "int" -> IF args[1].v < 0 THEN Raise("value error", s)
                                                     ELSE IF args[1].v > 20 THEN Unknown(s)
                                                     ELSE NewList([i \in 1..args[1].v |-> VNil], s)
-                            [] args[1].t \in {"bool", "nil", "fn", "builtin", "method", "error"} -> Raise("type error", s)
+                            [] args[1].t \in {"float", "bool", "nil", "fn", "builtin", "method", "error"} -> Raise("type error", s)
                             [] OTHER -> Unknown(s)
     [] n = "sorted" -> IF Len(args) < 1 \/ Len(args) > 2 THEN Raise("args error", s)
                        ELSE IF Len(args) = 2 THEN
@@ -433,12 +473,12 @@ CallBuiltin(n, args, s) ==
                               [] args[1].t = "map" -> LET ks == SortKeys(DOMAIN MapOf(args[1], s)) IN
                                      NewList([i \in 1..Len(ks) |-> VStr(ks[i])], s)
                               [] args[1].t = "str" -> LET r == SortVals([i \in 1..Len(args[1].v) |-> VStr(<<args[1].v[i]>>)], s) IN NewList(r.v, s)
-                              [] args[1].t \in {"int", "bool", "nil", "fn", "builtin", "method", "error"} -> Raise("type error", s)
+                              [] args[1].t \in {"int", "float", "bool", "nil", "fn", "builtin", "method", "error"} -> Raise("type error", s)
                               [] OTHER -> Unknown(s)
     [] n = "reversed" -> IF Len(args) # 1 THEN Raise("args error", s)
                          ELSE CASE args[1].t = "list" -> NewList(Rev(Items(args[1], s)), s)
                                 [] args[1].t = "str" -> Ok(VStr(Rev(args[1].v)), s)
-                                [] args[1].t \in {"int", "bool", "nil", "fn", "builtin", "method", "error", "map", "set"} -> Raise("type error", s)
+                                [] args[1].t \in {"int", "float", "bool", "nil", "fn", "builtin", "method", "error", "map", "set"} -> Raise("type error", s)
                                 [] OTHER -> Unknown(s)
     [] n = "error" -> IF Len(args) < 1 THEN Raise("args error", s)
                       ELSE IF args[1].t = "str" THEN
@@ -619,6 +659,8 @@ CaseBody(b, env, s) == IF Len(b) = 0 THEN Ok(VNil, s) ELSE Block(b, env, s)
 
 EvalE(e, env, s) ==
   CASE e.k = "int" -> Ok(VInt(e.v), s)
+    \* a float literal carries n8 = eight times its value when that is a small integer
+    [] e.k = "float" -> IF "n8" \in DOMAIN e /\ Abs(e.n8) <= FBIG THEN Ok(VFloat(e.n8), s) ELSE Unknown(s)
     [] e.k = "bool" -> Ok(VBool(e.v), s)
     [] e.k = "nil" -> Ok(VNil, s)
     [] e.k = "str" -> Ok(VStr(e.v), s)
@@ -639,7 +681,8 @@ EvalE(e, env, s) ==
           IF ra.k # "ok" THEN ra ELSE Ok(VBool(~Truthy(ra.v, ra.s)), ra.s)
     [] e.k = "neg" -> LET ra == EvalE(e.a, env, s) IN
           IF ra.k # "ok" THEN ra ELSE IF ra.v.t = "int" THEN Ok(VInt(-ra.v.v), ra.s)
-          ELSE IF ra.v.t = "float" THEN Unknown(ra.s) ELSE Raise("type error", ra.s)
+          ELSE IF ra.v.t = "float" THEN (IF ra.v.n = 0 THEN Unknown(ra.s) ELSE Ok(VFloat(-ra.v.n), ra.s))
+          ELSE Raise("type error", ra.s)
     [] e.k = "tern" -> LET rc == EvalE(e.c, env, s) IN
           IF rc.k # "ok" THEN rc ELSE IF Truthy(rc.v, rc.s) THEN EvalE(e.a, env, rc.s) ELSE EvalE(e.b, env, rc.s)
     [] e.k = "in" -> LET rc == EvalE(e.b, env, s) IN   \* container first, then item
@@ -826,7 +869,7 @@ Exec(st, env, s) ==
     [] st.k = "range" ->
           LET rc == EvalE(st.c, env, s) IN
           IF rc.k # "ok" THEN WithEnv(rc, env)
-          ELSE IF rc.v.t \in {"bool", "nil", "fn", "builtin", "method", "error"} THEN WithEnv(Raise("type error", rc.s), env)
+          ELSE IF rc.v.t \in {"float", "bool", "nil", "fn", "builtin", "method", "error"} THEN WithEnv(Raise("type error", rc.s), env)
           ELSE IF rc.v.t \notin {"list", "int", "str", "map", "set"} THEN WithEnv(Unknown(rc.s), env)
           ELSE LET n == Len(st.vars)
                    s1 == IF n >= 1 THEN Alloc(rc.s, VNil) ELSE rc.s
@@ -845,6 +888,7 @@ RECURSIVE ProjSeq(_,_,_)
 ProjSeq(xs, s, d) == IF Len(xs) = 0 THEN <<>> ELSE <<Proj(Head(xs), s, d)>> \o ProjSeq(Tail(xs), s, d)
 Proj(v, s, d) ==
   CASE v.t \in {"int","bool","str"} -> [t |-> v.t, v |-> v.v]
+    [] v.t = "float" -> [t |-> "float", v |-> FloatText(v.n)]
     [] v.t = "nil" -> [t |-> "nil"]
     [] v.t = "list" -> IF d = 0 THEN [t |-> "deep"] ELSE [t |-> "list", v |-> ProjSeq(Items(v, s), s, d - 1)]
     [] v.t = "set" -> IF d = 0 THEN [t |-> "deep"] ELSE [t |-> "set", v |-> ProjSeq(SetItems(v, s), s, d - 1)]
